@@ -121,6 +121,7 @@ func NewMuxer(streamName string, config *MuxerConfig, observer IMuxerObserver) *
 func (m *Muxer) Start() {
 	Log.Infof("[%s] start hls muxer.", m.UniqueKey)
 	m.ensureDir()
+	m.resumeSeq()
 }
 
 func (m *Muxer) Dispose() {
@@ -463,6 +464,22 @@ func (m *Muxer) ensureDir() {
 	// 注意，如果路径已经存在，则啥也不干
 	err := fslCtx.MkdirAll(m.outPath, 0777)
 	Log.Assert(nil, err)
+}
+
+// resumeSeq
+//
+// If the out path still holds the live m3u8 of a previous publication of this stream (cleanup mode 0, or the stream
+// is published again before the delayed cleanup), carry on with its numbering instead of starting at 0 again:
+// `EXT-X-MEDIA-SEQUENCE` must never decrease for a client that keeps reloading the playlist, and the ts file ids stay unique.
+// Note that the first fragment of a muxer is always marked with `EXT-X-DISCONTINUITY`.
+func (m *Muxer) resumeSeq() {
+	content, err := fslCtx.ReadFile(m.playlistFilename)
+	if err != nil {
+		return
+	}
+	if nextSeq, ok := calcNextSeqInM3u8(content); ok {
+		m.frag = nextSeq
+	}
 }
 
 // ---------------------------------------------------------------------------------------------------------------------
